@@ -227,6 +227,9 @@ func c05Body(x *explore.Ctx, sh c05Shape, readerIsServer bool, rbs, fi int, tier
 		_ = mayLen
 		_, r, err := c.NextReader()
 		x.Check(err != nil && r == nil, key("resurrected"), "NextReader after the JoinMessages error returned a reader")
+		if sh.deflate {
+			freshReadProbe(x, key("fresh-connection-fails"))
+		}
 		return
 	}
 	// ---- run the read program until the first error
@@ -339,5 +342,8 @@ func c05Body(x *explore.Ctx, sh c05Shape, readerIsServer bool, rbs, fi int, tier
 		} else {
 			x.Check(SameErr(err, nextErr), key("not-sticky"), "NextReader #%d returned %v, earlier %v", i+1, err, nextErr)
 		}
+	}
+	if sh.deflate {
+		freshReadProbe(x, key("fresh-connection-fails"))
 	}
 }
